@@ -12,7 +12,7 @@
              table): it must be the same multiset
    Observation of the implementation: T [L terminated; T delivered ids]. *)
 From Coq Require Import List NArith Bool Arith.
-From AdltV Require Import Base.Obs Pipe.Kahn Pipe.Loss.
+From AdltV Require Import Base.Obs Pipe.Kahn Pipe.Loss Pipe.Shared.
 Import ListNotations.
 Open Scope N_scope.
 
@@ -178,11 +178,48 @@ Definition loss_selfcheck (c : loss_case) : bool :=
            Bool.eqb (l_returned_early a) (l_returned_early b)) ks
   end.
 
-Definition case_C13 := (pipe_case + loss_case)%type.
+(* ---------------------------------------------------------------------------------------------------
+   Shared-table cases: the lifecycle stage as writer of the out-of-band lifecycle table, a probing plugin stage as reader.
+     events  per message handed to the outflow by the real stage (run alone, single-threaded): the lifecycle ids (ranks)
+             visible with the right ecu in the readers' view of the table at that very moment, the message id, its lifecycle
+     final   the ids in the table after the stage has returned
+     runs    (capacity of the channel, schedule numbers)
+   Observation: per run the look-up results (1 = found) of the real probing stage behind real channels of that capacity.
+   The model interleaves writer and reader by the schedule; the side condition of C13_lookups_schedule_independent
+   (published before sent, and still there in every later view) is evaluated on the events. *)
+Definition shared_case := (list (list N * N * N) * list N * list (N * list N))%type.
+Definition smsg := (N * N)%type.                       (* message id, lifecycle *)
+Definition slook (t : list N) (m : smsg) : bool := existsb (N.eqb (snd m)) t.
+
+Definition shared_events (c : shared_case) : list (@ev smsg (list N)) :=
+  let '(evs, fin, runs) := c in
+  flat_map (fun '(vis, id, lc) => [EPub vis; ESend (id, lc)]) evs ++ [EPub fin].
+
+(* boolean form of [published_before_sent slook (fun _ => true)] *)
+Fixpoint pbs_b (c : list N) (evs : list (@ev smsg (list N))) : bool :=
+  match evs with
+  | [] => true
+  | EPub t :: r => pbs_b t r
+  | ESend m :: r => slook c m && forallb (fun t => slook t m) (pubs r) && pbs_b c r
+  end.
+
+Definition shared_model (c : shared_case) : list otree :=
+  let '(evs, fin, runs) := c in
+  let es := shared_events c in
+  map (fun '(cap, sched) =>
+         let s := srun slook (3 * length es + 10) (N.to_nat cap) (map N.to_nat sched) (sinit [] es) in
+         T (map (fun x => ob (snd x)) (seen s))) runs.
+
+Definition case_C13 := (pipe_case + (loss_case + shared_case))%type.
 Definition run_C13 (c : case_C13) : otree :=
-  match c with inl p => run_pipe p | inr l => T (loss_model l) end.
+  match c with
+  | inl p => run_pipe p
+  | inr (inl l) => T (loss_model l)
+  | inr (inr sh) => T (shared_model sh)
+  end.
 Definition agree_C13 (c : case_C13) (o : otree) : bool :=
   match c with
   | inl p => agree_pipe p o
-  | inr l => loss_selfcheck l && otree_eqb (T (loss_model l)) o
+  | inr (inl l) => loss_selfcheck l && otree_eqb (T (loss_model l)) o
+  | inr (inr sh) => pbs_b [] (shared_events sh) && otree_eqb (T (shared_model sh)) o
   end.
